@@ -62,9 +62,14 @@ def run(ctx):
         lo = max(lo, max(-0.9 * b / s for s, b in zip(ss, bs))) if ts == 'q' else lo
         bounds = [(lo, 10.0)]
         inp = {'spec': spec, 'data': data, 'mu': mu, 'test_stat': ts, 'flags': dict(zip(['return_tail_probs', 'return_expected', 'return_expected_set', 'return_calculator'], flags)), 'par_bounds': bounds}
+        # the answer does not depend on where the fits start: half of the cases supply a starting point whose POI is not the default 1
+        extra = {}
+        if rng.random() < 0.5:
+            extra['init_pars'] = [rng.choice([max(lo, 0.0), 0.5, 2.5, 4.0])] + list(m.config.suggested_init())[1:]
+            inp['init_pars'] = extra['init_pars']
         try:
             res = pyhf.infer.hypotest(mu, data, m, par_bounds=bounds, test_stat=ts, return_tail_probs=tp, return_expected=ex,
-                                      return_expected_set=es, return_calculator=ca)
+                                      return_expected_set=es, return_calculator=ca, **extra)
         except Exception as e:  # noqa
             ctx.fail('C08/exception', f'hypotest raised {type(e).__name__} on a closed-form model', inp, str(e)[:200]); continue
         ctx.count()
